@@ -1,5 +1,6 @@
 import BrushVerif.Proofs.FlowRefine
 import BrushVerif.Model.ParamOps
+import BrushVerif.Proofs.Nounset
 /-!
 # C03 — `set -e` (errexit), its exempt contexts, `pipefail` and `inherit_errexit`
 
@@ -964,5 +965,220 @@ example : UnsetParam (.named none) ∧ (expandExpr (.named none) true (fun _ => 
   simp [UnsetParam, expandExpr, expandParam, undefinedExpansion]
 
 end Nounset
+
+/-! ## nounset: the whole decision table (model: `Model/Nounset.lean` — every arm of
+`expand_parameter_expr`, the parameter kinds of `expand_parameter_without_indirect`, `${!ref}`,
+arithmetic reads, `Error::is_fatal`; reference: `Spec/Nounset.lean`, bash 5.2's rules R1–R8) -/
+
+section NounsetTable
+open BrushVerif.Wire BrushVerif.Nounset BrushVerif.NounsetSpec BrushVerif.NounsetProofs
+open BrushVerif.ParamOps (TestOp PState classify)
+
+/-- the guard of the refinement for one command: every expansion avoids the recorded clauses, and
+the command is not a `let` whose arithmetic meets an unbound variable (clause `nounset_in_let_tolerated`) -/
+def stmtInGuard (ps : Parsers) (e : Env) : Stmt → Bool
+  | .words es => es.all (exprInGuard e)
+  | .letCmd a => arithDecision ps e a != .abort
+  | _ => true
+
+/-- the full statement: under `set -u` brush takes bash's decision for every command of the table -/
+def nounset_decision_eq_bash_full : Prop :=
+  ∀ (ps : Parsers) (e : Env), e.nounset = true → ∀ s : Stmt, nounsetDecision ps e s = bashDecision ps e s
+
+/-- **Under `set -u` brush ends the shell / abandons the command / goes on exactly where bash does**,
+for every command of the table — any parameter kind (names, subscripts that are numbers or words,
+positional and special parameters, `[@]`/`[*]`), any operator, `${!ref…}`, `$(( ))`, `(( ))`,
+`[[ -eq ]]`, `for ((`, subscripts of assignments, any number of words — over every shell state (any
+variables of any type and value, any positional parameters) and whatever the two run-time parsers
+do, outside the recorded clauses. -/
+theorem nounset_decision_eq_bash_partial (ps : Parsers) (e : Env) (hu : e.nounset = true) (s : Stmt)
+    (hg : stmtInGuard ps e s = true) :
+    nounsetDecision ps e s = bashDecision ps e s := by
+  cases s with
+  | words es =>
+    simp only [nounsetDecision, bashDecision]
+    induction es with
+    | nil => rfl
+    | cons x xs ih =>
+      simp only [stmtInGuard, List.all_cons, Bool.and_eq_true] at hg
+      have hx := expr_eq ps e hu x hg.1
+      have hxs := ih (by simpa [stmtInGuard] using hg.2)
+      simp only [expandAll, bashWords]
+      cases hr : expandExpr ps e x with
+      | error er => rw [hr] at hx; rw [← hx]; cases er <;> rfl
+      | ok u => rw [hr] at hx; rw [← hx]; exact hxs
+  | arithCmd a => exact arith_eq' ps e a
+  | condArith a => exact arith_eq' ps e a
+  | arithFor a => exact arith_eq' ps e a
+  | assignIdx a => exact arith_eq' ps e a
+  | letCmd a =>
+    have hg' : arithDecision ps e a ≠ .abort := by simpa [stmtInGuard] using hg
+    show Decision.ok = (match arithDecision ps e a with | .abort => .abort | _ => .ok)
+    revert hg'
+    cases arithDecision ps e a <;> intro hg' <;> first | rfl | exact absurd rfl hg'
+
+/-- a state for the witnesses: `s=abc`, `arr=(x)`, `A` declared `-A`, nothing else; no arguments -/
+def witnessEnv : Env :=
+  { vars := fun n => if n = ['s'] then some (.str ['a', 'b', 'c']) else if n = ['a', 'r', 'r'] then some (.indexed [(0, ['x'])])
+      else if n = ['A'] then some (.unset .assoc) else none,
+    args := [], nounset := true }
+
+def witnessParsers : Parsers := { arith := fun _ => none, param := fun _ => none, fuel := 8 }
+
+example : stmtInGuard witnessParsers witnessEnv (.words [.value .plain (.named ['v']) false, .length (.namedAll ['a', 'r', 'r'] false)]) = true ∧
+    nounsetDecision witnessParsers witnessEnv (.words [.value .plain (.named ['v']) false]) = .abort := by
+  refine ⟨by decide, by decide⟩
+
+/-- the four recorded deviations are real: `${#v[@]}` and `${#v[0]}` of a variable that is not there
+(bash abandons the command; brush goes on, resp. ends the shell), `${!v}` of one (bash abandons, brush
+ends the shell), `let v+1` (bash ends the shell, brush goes on), `${A[@]=w}` -/
+theorem nounset_decision_eq_bash_cex : ¬ nounset_decision_eq_bash_full := by
+  intro h
+  have := h witnessParsers witnessEnv rfl (.words [.length (.namedAll ['v'] false)])
+  revert this; decide
+
+theorem nounset_array_length_cex :
+    nounsetDecision witnessParsers witnessEnv (.words [.length (.namedAll ['v'] false)]) = .ok ∧
+    bashDecision witnessParsers witnessEnv (.words [.length (.namedAll ['v'] false)]) = .fail ∧
+    nounsetDecision witnessParsers witnessEnv (.words [.length (.namedAll ['s'] false)]) = .ok ∧
+    bashDecision witnessParsers witnessEnv (.words [.length (.namedAll ['s'] false)]) = .fail := by decide
+
+theorem nounset_element_length_of_unset_cex :
+    nounsetDecision witnessParsers witnessEnv (.words [.length (.namedIdx ['v'] (.num 0))]) = .abort ∧
+    bashDecision witnessParsers witnessEnv (.words [.length (.namedIdx ['v'] (.num 0))]) = .fail := by decide
+
+theorem nounset_indirect_of_unset_cex :
+    nounsetDecision witnessParsers witnessEnv (.words [.value .plain (.named ['v']) true]) = .abort ∧
+    bashDecision witnessParsers witnessEnv (.words [.value .plain (.named ['v']) true]) = .fail := by decide
+
+theorem nounset_in_let_cex :
+    nounsetDecision witnessParsers witnessEnv (.letCmd (.add (.var ['v']) (.lit 1))) = .ok ∧
+    bashDecision witnessParsers witnessEnv (.letCmd (.add (.var ['v']) (.lit 1))) = .abort := by decide
+
+theorem nounset_assign_default_to_declared_assoc_list_cex :
+    nounsetDecision witnessParsers witnessEnv (.words [.test .assignDefault false (.namedAll ['A'] false) (.lit ['w'])]) = .fail ∧
+    bashDecision witnessParsers witnessEnv (.words [.test .assignDefault false (.namedAll ['A'] false) (.lit ['w'])]) = .ok := by decide
+
+/-- **The testing operators never report an unbound parameter**: `${p-w}`, `${p:-w}`, `${p+w}`,
+`${p:+w}` with a literal word go through for every parameter whose subscript (if any) can be
+evaluated, in every state, with or without `-u`. -/
+theorem nounset_testing_operators_never_abort (ps : Parsers) (e : Env) (p : Parameter) (colon : Bool) (w : Str)
+    (hsub : (paramState ps e p).1 = .ok) :
+    nounsetDecision ps e (.words [.test .useDefault colon p (.lit w)]) = .ok ∧
+    nounsetDecision ps e (.words [.test .useAlternative colon p (.lit w)]) = .ok := by
+  rcases expandParam_allow ps e p with ⟨x, h1, h2⟩ | ⟨er, h1, h2, h3⟩
+  · simp only [nounsetDecision, expandAll, expandExpr, expandParamInd, h1, testAction_table]
+    constructor <;> cases hcx : classify x <;> cases colon <;> simp [hcx, expandWord, Nounset.decide?]
+  · exact absurd hsub h3
+
+example : (paramState witnessParsers witnessEnv (.named ['v'])).1 = .ok ∧
+    (paramState witnessParsers witnessEnv (.namedIdx ['a', 'r', 'r'] (.num 3))).1 = .ok := by decide
+
+/-- **`${p?w}` / `${p:?w}` end the shell iff the parameter is unset (with the colon: or null),
+whether or not `-u` is on** — and otherwise let the command run. -/
+theorem error_if_unset_decision (ps : Parsers) (e : Env) (p : Parameter) (colon : Bool) (w : Str) (st : PState)
+    (hst : paramState ps e p = (.ok, st)) :
+    nounsetDecision ps e (.words [.test .errorIfUnset colon p (.lit w)]) =
+      if st = .undefined ∨ (colon = true ∧ st = .definedEmpty) then .abort else .ok := by
+  rcases expandParam_allow ps e p with ⟨x, h1, h2⟩ | ⟨er, h1, h2, h3⟩
+  · rw [hst] at h2
+    have hc : classify x = st := by injection h2 with _ h; exact h.symm
+    subst hc
+    simp only [nounsetDecision, expandAll, expandExpr, expandParamInd, h1, testAction_table]
+    cases hcx : classify x <;> cases colon <;> simp [hcx, expandWord, Nounset.decide?, Err.fatal]
+  · rw [hst] at h3; exact absurd rfl h3
+
+example : nounsetDecision witnessParsers { witnessEnv with nounset := false } (.words [.test .errorIfUnset false (.named ['v']) (.lit [])]) = .abort ∧
+    nounsetDecision witnessParsers witnessEnv (.words [.test .errorIfUnset true (.named ['s']) (.lit [])]) = .ok := by decide
+
+/-- **Lists and special parameters are never unbound**: `$@`, `$*`, `$#`, `$?`, `$-`, `$$`, `$0`,
+`${a[@]}`, `${a[*]}` under any value-using operator without arithmetic operands, and their length,
+go through in every state — no arguments, no such variable — under `-u`. -/
+theorem nounset_lists_and_specials_never_abort (ps : Parsers) (e : Env) (p : Parameter) (hp : isList p = true)
+    (op : ValueOp) (hop : ∀ off len, op ≠ .substring off len) :
+    nounsetDecision ps e (.words [.value op p false]) = .ok ∧
+    (∀ sp, p = .special sp → nounsetDecision ps e (.words [.length p]) = .ok) := by
+  cases p with
+  | special sp =>
+    refine ⟨?_, fun sp' _ => ?_⟩
+    · cases sp <;> cases op <;> first | rfl | exact absurd rfl (hop _ _)
+    · cases sp <;> rfl
+  | namedAll n star =>
+    refine ⟨?_, fun sp h => by cases h⟩
+    cases hv : e.vars n <;> cases op <;>
+      first
+        | exact absurd rfl (hop _ _)
+        | simp [nounsetDecision, expandAll, expandExpr, expandParamInd, expandParam, hv, Nounset.decide?]
+  | positional k => cases hp
+  | named n => cases hp
+  | namedIdx n i => cases hp
+
+example : isList (.special (.allPos true)) = true ∧ witnessEnv.args = [] ∧ witnessEnv.vars ['v'] = none := by decide
+
+/-- **Without `-u` nothing is unbound**: no parameter expansion and no arithmetic read produces
+the unset-variable error (for a parameter whose subscript, if any, can be evaluated). -/
+theorem without_nounset_nothing_is_unbound (ps : Parsers) (e : Env) (hu : e.nounset = false) (p : Parameter)
+    (hsub : (paramState ps e p).1 = .ok) (allow : Bool) (x : Str) :
+    expandParam ps e p allow ≠ .error .unsetVar ∧ getVarValue e x ≠ .error .arithUnset := by
+  constructor
+  · cases p with
+    | positional k =>
+      cases k with
+      | zero => simp [expandParam]
+      | succ k => cases h : e.args[k]? <;> simp [expandParam, h, undefinedExpansion, hu]
+    | special sp => cases sp <;> simp [expandParam]
+    | named n =>
+      cases h : e.vars n with
+      | none => simp [expandParam, h, undefinedExpansion, hu]
+      | some v => cases h2 : v.scalar? <;> simp [expandParam, h, h2, undefinedExpansion, hu]
+    | namedIdx n i =>
+      rw [paramState_idx_fst] at hsub
+      rcases expandIndex_eq ps e n i with ⟨iv, g1, g2⟩ | ⟨er, g1, g2, g3⟩
+      · simp only [expandParam, isAssoc_match, g1]
+        cases h2 : (e.vars n).bind (fun v => v.getAt iv) <;> simp [undefinedExpansion, hu]
+      · exact absurd hsub g3
+    | namedAll n star => cases h : e.vars n <;> simp [expandParam, h]
+  · unfold getVarValue
+    cases h : e.vars x with
+    | none => simp [hu]
+    | some v => cases h2 : v.isSet <;> simp [h2, hu]
+
+example : expandParam witnessParsers { witnessEnv with nounset := false } (.named ['v']) false = .ok BrushVerif.ParamOps.undefinedExp := by rfl
+
+/-- **What a script shows determines the decision, and the decision determines what every placement
+shows**: the three placements of the table (same line, next line, inside a function) tell the three
+decisions apart, an abort never reaches `after` wherever the command stands, and a command that runs
+always does. -/
+theorem nounset_decision_observable (d d' : Decision) :
+    ((∀ pl, shown pl d = shown pl d') → d = d') ∧
+    (∀ pl, (shown pl .abort).after = false ∧ (shown pl .abort).failed = true) ∧
+    (∀ pl, (shown pl .ok).after = true ∧ (shown pl .ok).failed = false) := by
+  refine ⟨?_, fun pl => by cases pl <;> decide, fun pl => by cases pl <;> decide⟩
+  intro h
+  have h1 := h .sameLine; have h2 := h .nextLine
+  cases d <;> cases d' <;> first | rfl | (revert h1 h2; decide)
+
+/-- **Arithmetic reads only what C evaluation reads**: the operand `&&` / `||` / `?:` skip is not
+read, so an unbound variable there does not matter; an assignment does not read its target; the
+read of a variable without a value ends the shell under `-u` in every arithmetic context but `let`. -/
+theorem nounset_arithmetic_reads (ps : Parsers) (e : Env) (f : Nat) (hf : ps.fuel = f + 2) (a : AExpr) (x : Str) (n : Int)
+    (hx : (e.vars x).all (fun v => !v.isSet) = true) (hu : e.nounset = true) :
+    nounsetDecision ps e (.arithCmd (.land (.lit 0) a)) = .ok ∧
+    nounsetDecision ps e (.arithCmd (.lor (.lit 1) a)) = .ok ∧
+    nounsetDecision ps e (.arithCmd (.cond (.lit 1) (.lit n) a)) = .ok ∧
+    nounsetDecision ps e (.arithCmd (.assign x (.lit n))) = .ok ∧
+    nounsetDecision ps e (.arithCmd (.var x)) = .abort ∧
+    nounsetDecision ps e (.condArith (.add (.var x) (.lit n))) = .abort ∧
+    nounsetDecision ps e (.letCmd (.var x)) = .ok := by
+  have hg : getVarValue e x = .error .arithUnset := by
+    unfold getVarValue
+    cases h : e.vars x with
+    | none => simp [hu]
+    | some v => simp [h] at hx; simp [hx, hu]
+  simp [nounsetDecision, hf, evalA, Nounset.decide?, hg, Err.fatal]
+
+example : (witnessEnv.vars ['v']).all (fun v => !v.isSet) = true ∧ witnessParsers.fuel = 6 + 2 := by decide
+
+end NounsetTable
 
 end BrushVerif.C03
